@@ -136,13 +136,23 @@ class Impl:
             return ("lit", int(a.stencil.extent_arg.text))
         return ("var", a.stencil.extent_arg.varname)
 
+    fix_f1 = False
+
+    def auw(self, call, loop):
+        """the condition of the GH_WRITE special case as the tree under test evaluates it"""
+        v = getattr(call, "all_updates_are_writes", False)
+        if v and self.fix_f1:
+            from psyclone.domain.lfric import LFRicConstants
+            v = loop.field_space.orig_name not in LFRicConstants().VALID_DISCONTINUOUS_NAMES
+        return v
+
     def rarg(self, cq, arg):
         call = arg.call
         loop = call.ancestor(self.LFRicLoop)
         fine = bool(getattr(call, "is_intergrid", False)) and arg.mesh == "gh_fine"
         return "(Build_rarg %s %s %s %s %s %s %s %s)" % (
             ACC[arg.access.name], BND[loop.upper_bound_name], optn(loop.upper_bound_halo_depth), b(arg.discontinuous),
-            b(call.iterates_over == "dof"), b(getattr(call, "all_updates_are_writes", False)), cq.extent(self.stencil_of(arg)), b(fine))
+            b(call.iterates_over == "dof"), b(self.auw(call, loop)), cq.extent(self.stencil_of(arg)), b(fine))
 
     def warg(self, arg):
         call = arg.call
@@ -230,6 +240,47 @@ TARGETED = [
     ("readinc", {"annexed": False, "file": "14.15_halo_readinc.f90"}, [["rc", 0, 2], ["rc", 1, 3]]),
     ("multikernel", {"annexed": False, "file": "4.8_multikernel_invokes.f90"}, [["rc", 1, 2], ["colour", 2], ["omp", 2]]),
     ("builtin+kernel", {"annexed": True, "file": "15.14.4_builtin_and_normal_kernel_invoke.f90"}, [["rc", 0, None]]),
+    # --- every branch of required() / _create_depth_list, deterministically
+    ("req-several-depths-unknown", {"annexed": False, "kernels": {}, "calls": [
+        {"kern": "setval_c", "builtin": True, "actual": ["f2", "0.5_r_def"]},
+        {"kern": "testkern_stencil_w3_type", "builtin": False, "actual": ["f5", "f2", "ext1"]},
+        {"kern": "testkern_w3_type", "builtin": False, "actual": ["s1", "f0", "f1", "f2", "f6"]}],
+        "fields": {"f0": 1, "f1": 1, "f2": 1, "f5": 1, "f6": 1}}, [["rc", 0, 3], ["rc", 2, 2]]),
+    ("req-several-depths-known", {"annexed": True, "kernels": {}, "calls": [
+        {"kern": "setval_c", "builtin": True, "actual": ["f2", "0.5_r_def"]},
+        {"kern": "testkern_stencil_w3_type", "builtin": False, "actual": ["f5", "f2", "ext1"]},
+        {"kern": "testkern_w3_type", "builtin": False, "actual": ["s1", "f0", "f1", "f2", "f6"]}],
+        "fields": {"f0": 1, "f1": 1, "f2": 1, "f5": 1, "f6": 1}}, [["rc", 0, 1], ["rc", 2, 2]]),
+    ("same-extent-variable-two-depths", {"annexed": False, "kernels": {}, "calls": [
+        {"kern": "testkern_stencil_w3_type", "builtin": False, "actual": ["f5", "f2", "ext1"]},
+        {"kern": "testkern_stencil_type", "builtin": False, "actual": ["f1", "f2", "ext1", "f3", "f4"]}],
+        "fields": {"f1": 1, "f2": 1, "f3": 1, "f4": 1, "f5": 1}}, []),
+    ("coloured-inc-writer-rc", {"annexed": False, "kernels": {}, "calls": [
+        {"kern": "testkern_w2_only_type", "builtin": False, "actual": ["f1", "f2"]},
+        {"kern": "testkern_w3_type", "builtin": False, "actual": ["s1", "f0", "f3", "f1", "f6"]}],
+        "fields": {"f0": 1, "f1": 1, "f2": 1, "f3": 1, "f6": 1}}, [["colour", 0], ["rc", 0, 2], ["rc", 1, 2]]),
+    ("rc-on-coloured-reader", {"annexed": True, "kernels": {}, "calls": [
+        {"kern": "setval_c", "builtin": True, "actual": ["f2", "0.5_r_def"]},
+        {"kern": "testkern_w0_type", "builtin": False, "actual": ["f1", "f2"]}],
+        "fields": {"f1": 1, "f2": 1}}, [["rc", 0, 1], ["colour", 1], ["rc", 1, 2]]),
+    ("inc-max-writer-then-readers", {"annexed": False, "kernels": {}, "calls": [
+        {"kern": "testkern_w0_type", "builtin": False, "actual": ["f1", "f2"]},
+        {"kern": "testkern_w3_type", "builtin": False, "actual": ["s1", "f1", "f3", "f4", "f6"]},
+        {"kern": "testkern_w0_type", "builtin": False, "actual": ["f1", "f2"]},
+        {"kern": "testkern_w3_type", "builtin": False, "actual": ["s1", "f1", "f3", "f4", "f6"]}],
+        "fields": {"f1": 1, "f2": 1, "f3": 1, "f4": 1, "f6": 1}},
+     [["rc", 0, None], ["rc", 1, None], ["rc", 2, None], ["rc", 3, 2]]),
+    ("inc-then-annexed-reader", {"annexed": False, "kernels": {}, "calls": [
+        {"kern": "testkern_w0_type", "builtin": False, "actual": ["f1", "f2"]},
+        {"kern": "testkern_w3_type", "builtin": False, "actual": ["s1", "f1", "f3", "f4", "f6"]},
+        {"kern": "inc_X_plus_Y", "builtin": True, "actual": ["f1", "f2"]},
+        {"kern": "testkern_w0_type", "builtin": False, "actual": ["f2", "f1"]}],
+        "fields": {"f1": 1, "f2": 1, "f3": 1, "f4": 1, "f6": 1}}, []),
+    ("annexed-on-inc-and-builtins", {"annexed": True, "kernels": {}, "calls": [
+        {"kern": "simple_type", "builtin": False, "actual": ["f1"]},
+        {"kern": "X_plus_Y", "builtin": True, "actual": ["f2", "f1", "f3"]},
+        {"kern": "testkern_w3_type", "builtin": False, "actual": ["s1", "f0", "f2", "f4", "f6"]}],
+        "fields": {"f0": 1, "f1": 1, "f2": 1, "f3": 1, "f4": 1, "f6": 1}}, [["rc", 1, 1], ["omp", 1]]),
     ("discontinuous-max", {"annexed": False, "kernels": {}, "calls": [
         {"kern": "testkern_w3_only_vector_type", "builtin": False, "actual": ["f1", "f2"]},
         {"kern": "testkern_w3_only_vector_type", "builtin": False, "actual": ["f2", "f1"]}],
@@ -237,11 +288,35 @@ TARGETED = [
 ]
 
 
+def probe_required_fix(drv, impl):
+    """one-bit dynamic translator: does the tree under test contain the repair of props/C22/fix.patch
+    (required() treats a lone max_depth-1 entry as 'unknown depth')?  Observed on the F3 witness: with the
+    repair the exchange between the two loops is kept."""
+    spec = json.loads(json.dumps(TARGETED_F3[1]))
+    psy, sched = drv.build(spec)
+    drv.apply_history(sched, TARGETED_F3[2])
+    return any(not isinstance(h, impl.HxStart) and h.field.name == "f1" for h in sched.walk(impl.Hx))
+
+
+TARGETED_F3 = [t for t in TARGETED if t[0] == "F3-witness"][0]
+TARGETED_F1 = [t for t in TARGETED if t[0] == "F1-witness"][0]
+
+
+def probe_f1_fix(drv, impl):
+    """does the tree under test restrict the 'all updates are GH_WRITE' special case to loops over a
+    non-discontinuous iteration space (second hunk of props/C22/fix.patch)?  Observed on the F1 witness: with
+    the repair f1 gets a halo exchange."""
+    psy, sched = drv.build(json.loads(json.dumps(TARGETED_F1[1])))
+    return any(h.field.name == "f1" for h in sched.walk(impl.Hx))
+
+
 class Runner:
     def __init__(self, ctx):
         self.ctx = ctx
         self.drv = halo.Driver(core.REPO, ctx.scratch)
         self.impl = Impl()
+        self.fixed = probe_required_fix(self.drv, self.impl)
+        self.impl.fix_f1 = probe_f1_fix(self.drv, self.impl)
         self.cases = []        # (kind, coq term, info)
         self.prop_failures = []   # (key, what, replay)
         self.first_spec = None
@@ -258,11 +333,19 @@ class Runner:
             ctx.hist("outcome", "rejected-at-build")
             ctx.hist("reject_reason", str(e)[:60])
             return
+        except Exception as e:     # noqa: a crash of the implementation on a generated input is not a C22 matter
+            ctx.hist("outcome", "implementation-crashed-at-build")
+            ctx.hist("reject_reason", "%s: %s" % (type(e).__name__, str(e)[:40]))
+            return
         try:
             accepted, rejected = self.drv.apply_history(sched, steps)
         except halo.Rejected as e:
             ctx.hist("outcome", "apply-raised")
             ctx.hist("reject_reason", str(e)[:60])
+            return
+        except Exception as e:     # noqa
+            ctx.hist("outcome", "implementation-crashed-in-apply")
+            ctx.hist("reject_reason", "%s: %s" % (type(e).__name__, str(e)[:40]))
             return
         for a in accepted:
             ctx.hist("accepted_transformations", a[0])
@@ -275,9 +358,9 @@ class Runner:
             ctx.hist("outcome", "rejected-at-generation")
             ctx.hist("reject_reason", str(e)[:60])
             return
-        except NotImplementedError as e:
+        except Exception as e:     # noqa (NotImplementedError for some OpenMP regions, ...)
             ctx.hist("outcome", "rejected-at-generation")
-            ctx.hist("reject_reason", "NotImplementedError: " + str(e)[:40])
+            ctx.hist("reject_reason", "%s: %s" % (type(e).__name__, str(e)[:40]))
             return
         try:
             kerns, proxies = halo.kernel_facts(sched)
@@ -355,8 +438,8 @@ class Runner:
             if winfo is not None:
                 w = "(Some (%s, Build_hwrite %s %d %s))" % (impl.warg(wdeps[0]), b(winfo.max_depth),
                                                          winfo.literal_depth, b(winfo.dirty_outer))
-            self.add("required", "CX %s %s %s %s (%s, %s)" % (
-                b(cfg), core.coq_list(readers), core.coq_list(cq.hdepth(d) for d in dlist), w, b(req[0]), b(req[1])),
+            self.add("required", "CX %s %s %s %s %s (%s, %s)" % (
+                b(self.fixed), b(cfg), core.coq_list(readers), core.coq_list(cq.hdepth(d) for d in dlist), w, b(req[0]), b(req[1])),
                 dict(info, exchange=hx.node_str(colour=False), required=list(req)))
             self.ctx.hist("required_answers", "%s/%s" % req)
         # (b) every field argument of every kernel: _halo_read_access, structural premises, marks
@@ -381,14 +464,14 @@ class Runner:
                     obs = "None"
                 larg = "(Build_larg %s %s %s %s %s %s)" % (
                     ACC[arg.access.name], b(bool(arg.descriptor.stencil)), BND[loop.upper_bound_name],
-                    b(arg.discontinuous), b(k.iterates_over == "cell_column"), b(getattr(k, "all_updates_are_writes", False)))
+                    b(arg.discontinuous), b(k.iterates_over == "cell_column"), b(impl.auw(k, loop)))
                 self.add("halo_read_access", "CL %s %s %s" % (b(cfg), larg, obs),
                          dict(info, kernel=k.name, arg=arg.name))
                 bound = loops_of_kern[ki]
                 for cont in res["cands"][facts["field"]]:
                     if arg.access.name != "WRITE":
-                        self.add("premise_compat_r", "CR %s %s %s %s" % (
-                            b(cfg), impl.rarg(cq, arg), cq.lkind(bound), cq.targ(kerns[ki], facts, cont)),
+                        self.add("premise_compat_r", "CR %s %s %s %s %s" % (
+                            b(impl.fix_f1), b(cfg), impl.rarg(cq, arg), cq.lkind(bound), cq.targ(kerns[ki], facts, cont)),
                             dict(info, kernel=k.name, arg=arg.name, continuous=cont))
                     if arg.access.name != "READ":
                         self.add("premise_compat_w", "CW %s %s %s %s" % (
@@ -431,7 +514,7 @@ class Runner:
                         continue
                     finfo = dict(info, field=f, continuous=cont, python_machine_safe=safe)
                     self.add("machines_agree", "CF %s %s %s %s %s" % (b(cfg), b(cont), cfgs, prog, b(safe)), finfo)
-                    self.add("well_placed", "CP %s %s %s" % (b(cfg), b(cont), prog), finfo)
+                    self.add("well_placed", "CP %d %s %s %s" % (halo.needed_literals(stmts, kerns), b(cfg), b(cont), prog), finfo)
 
     def marks_cases(self, cq, sched, kerns, kis, block, info):
         impl = self.impl
@@ -461,7 +544,7 @@ def run(ctx):
         "invokes of 1-4 calls drawn from 39 LFRic test kernels, kernels with generated metadata (all access modes x "
         "continuous/discontinuous/any_space spaces x stencil types, vectors, operators, domain kernels) and 17 built-ins, "
         "annexed-dofs setting on/off, x histories of 0-5 transformations (redundant computation to depth 1-3 or max, "
-        "colouring, OpenMP parallel-do / parallel region, asynchronous halo exchange, move); plus 11 fixed cases "
+        "colouring, OpenMP parallel-do / parallel region, asynchronous halo exchange, move); plus 19 fixed cases "
         "(finding witnesses, PSyclone test algorithms). The generated PSy code of each accepted case is run on the "
         "abstract halo machine for every field from every initial state (recorded depth 0..M, annexed clean/dirty), "
         "M = 1..3, extents 1..M.  non-trivial = the generated code contains a halo exchange or a transformation was "
@@ -485,15 +568,22 @@ def run(ctx):
         "bounds) are evaluated on every generated argument"]
     ok, rep = ctx.prove()
     ctx.log("proof ok=%s discharged=%d/%d" % (ok, ctx.cov["discharged"], ctx.cov["obligations"]))
+    okh, outh = ctx.coq_make(["C22/Harness.vo"])
+    if not okh:
+        ok = False
+        rep.setdefault("errors", []).append("coq/C22/Harness.v does not build: " + outh[-1500:])
     rn = Runner(ctx)
+    ctx.notes["required_fix_present_in_tree"] = rn.fixed
+    ctx.notes["gh_write_special_case_fix_present_in_tree"] = rn.impl.fix_f1
     t0 = time.time()
     for name, spec, steps in TARGETED:
         rn.one(name, json.loads(json.dumps(spec)), steps)
     ctx.log("targeted cases done: %.0fs" % (time.time() - t0))
+    t0 = time.time()
     rng = ctx.rng("gen")
     g = halo.Gen(rng, ctx.thorough)
     n = ctx.pick(34, 420)
-    budget = ctx.pick(50, 780)
+    budget = ctx.pick(22, 480)
     done = 0
     for i in range(n):
         if time.time() - t0 > budget:
@@ -507,7 +597,7 @@ def run(ctx):
             % (len(TARGETED), done, time.time() - t0, len(rn.cases), len(rn.prop_failures)))
     # ---- Coq evaluation
     header = "From PV Require Import C22.Model C22.Required C22.Access C22.Harness.\nOpen Scope N_scope."
-    failing = ctx.coq_eval_failing(header, "hcase", "check", [c[1] for c in rn.cases], shard=ctx.pick(400, 1500))
+    failing = ctx.coq_eval_failing(header, "hcase", "check", [c[1] for c in rn.cases], shard=ctx.pick(160, 1200))
     bykind = {}
     for c in rn.cases:
         ctx.hist("model_cases", c[0])
